@@ -183,6 +183,8 @@ fn main() {
         let input = codec::case_bytes(&case);
         let r = run(&input);
         writeln!(w, "{}", codec::rec_json(&case, &input, &r)).unwrap();
+        // (flushed per record: if the derived code takes the whole process down, the records show which case did it)
+        w.flush().unwrap();
     }
     w.flush().unwrap();
 }
@@ -294,9 +296,29 @@ def run(chk):
         cases = [c for c in cases if c["ty"] not in ("N1", "N2", "N3") or c["cls"] == "canon"]
         cin, cout = os.path.join(wd, label + ".cases.ndjson"), os.path.join(wd, label + ".records.ndjson")
         vlib.write_ndjson(cin, cases)
-        p = subprocess.run([binary, cin, cout], stdout=subprocess.PIPE, stderr=subprocess.PIPE, timeout=3000)
-        if p.returncode != 0:
-            raise vlib.ToolError("generated runner failed: " + p.stderr.decode()[-2000:])
+        crashed = None
+        try:
+            def limit():
+                import resource
+                resource.setrlimit(resource.RLIMIT_AS, (6 << 30, 6 << 30))     # a runaway allocation ends the runner, not the machine
+            p = subprocess.run([binary, cin, cout], stdout=subprocess.PIPE, stderr=subprocess.PIPE, timeout=1500, preexec_fn=limit)
+            rc, err = p.returncode, p.stderr.decode()[-600:]
+        except subprocess.TimeoutExpired:
+            rc, err = -1, "no progress within 1500 s"
+        if rc != 0:
+            # the derived code took the runner down (stack overflow, abort, endless loop): that is an outcome of the case it was running
+            done = sum(1 for _ in open(cout)) if os.path.exists(cout) else 0
+            if done >= len(cases):
+                raise vlib.ToolError("generated runner failed after the last case: " + err)
+            bad = cases[done]
+            d = batch[int(bad["ty"][1:]) - 1] if bad["ty"].startswith("G") else {"fields": bad["ty"]}
+            shape = " ".join("%s:%s:%s:%s%s:%s" % (f["attr"], f["ty"], f["enc"], f["len"], f["n"] or "", f["card"]) for f in d["fields"]) if isinstance(d["fields"], list) else d["fields"]
+            chk.violation("derive:crash:%s" % shape, "struct {%s}: the derived code does not return on %s (%s): the process %s" % (
+                shape, cc.hexs(bad["in"]), bad.get("cls"), "hung" if rc == -1 else "died with status %d %s" % (rc, err.strip()[-200:])),
+                {"definition": d, "rust": rust_struct("G", d, None) if isinstance(d["fields"], list) else "", "case": cc.short(bad)})
+            crashed = done
+            # judge what was recorded up to there
+            open(cout, "a").close()
         # judge with the reference codec over the generated layout
         lines = open(cout).read().splitlines()
         shards = [(k, lines[k:k + 2500]) for k in range(0, len(lines), 2500)]
